@@ -5,7 +5,8 @@ META = {
     'explanation': 'REAL ProviderMdib with nested members present (MetricValue, BodySite list, CoreData, LocationDetail, Validator list, '
                    'alert Source list). (a) transaction bodies that write SYMBOLIC strings into nested members of the objects handed '
                    'out and abort at a symbolic crash point; (b) 9 API-rejected calls after a valid modification; (c) commit-time '
-                   'failures; (d) writes to handed-out objects AFTER a successful commit, and a later transaction writing to the same '
+                   'failures; (b2) rejected (batch) calls whose exception the body handles itself, against a twin MDIB running the body '
+                   'without that call; (d2) entities refreshed with update() after a commit; (d) writes to handed-out objects AFTER a successful commit, and a later transaction writing to the same '
                    'nested member, against the MDIB, the report objects and the copies retained by the real PeriodicReportsHandler. '
                    'Oracle: full canonical snapshot (content at every nesting depth, versions, table sizes, None not in tables, '
                    'indices == scan) before == after; no report captured.',
@@ -31,6 +32,10 @@ RC = ['unknown_state_handle', 'wrong_state_type', 'get_state_twice', 'unknown_de
       'mk_context_state_existing_handle', 'mk_context_state_non_context_descriptor', 'get_state_without_descriptor',
       'remove_then_get_state']
 CF = ['pre_commit_handler_raises', 'add_state_duplicate_handle', 'entity_delete_context_state']
+RCC = ['metric_write_entities_wrong_type', 'metric_write_entities_multi_state', 'alert_write_entities_wrong_type',
+       'context_write_entity_unknown_handle', 'descriptor_write_entities_already_written', 'mk_context_state_existing_handle',
+       'get_context_state_unknown_handle']
+IU = ['single_state_entity', 'multi_state_entity_new_state', 'entity_after_descriptor_change']
 IK = ['write_to_transaction_state', 'write_to_entity', 'write_to_transaction_result', 'later_transaction_same_member']
 
 
@@ -56,6 +61,21 @@ def obligations(tier):
                       bounds='two distinct symbolic strs <= 2, mv, sv in N',
                       claim='post-commit writes to handed-out objects do not reach the MDIB; earlier report objects and retained '
                             'periodic copies keep the committed value'))
+    for i, n in enumerate(RCC):
+        obs.append(Ob(f'C03.rejected_caught.{n}', 'harness.C03', 'rejected_call_caught', bind={'case': i}, timeout=t,
+                      functions=F + ['sdc11073.mdib.transactions.StateTransactionBase.write_entities',
+                                     'sdc11073.mdib.transactions.DescriptorTransaction.write_entities'], stubs=STUBS,
+                      bounds='one valid modification + one rejected (batch) call whose exception the body handles itself; twin MDIB runs '
+                             'the body without the rejected call; symbolic mv, sv, str <= 2',
+                      claim='a call the API rejects contributes nothing to the commit: snapshot, versions and number of reports equal '
+                            'those of the same transaction without that call'))
+    for i, n in enumerate(IU):
+        obs.append(Ob(f'C03.isolation_update.{n}', 'harness.C03', 'isolation_after_update', bind={'kind': i}, timeout=t,
+                      functions=F + ['sdc11073.mdib.mdibbase.Entity.update', 'sdc11073.mdib.mdibbase.MultiStateEntity.update',
+                                     'sdc11073.mdib.mdibbase._EntityBase.update'], stubs=STUBS,
+                      bounds='entity fetched before a commit, update() after it; two distinct symbolic strs <= 2, mv, sv in N',
+                      claim='update() shows the committed data (including context states created meanwhile) and the entity stays a '
+                            'private copy at every nesting depth'))
     return obs
 
 
@@ -63,8 +83,8 @@ MANIFEST_ENTRY = {
     'engine': 'crosshair',
     'technique': 'bounded symbolic execution (CrossHair/z3) of the real transaction manager with symbolic crash point, symbolic nested '
                  'values and version counters; full-snapshot equality oracle',
-    'text': 'All paths of 22 transaction shapes (6 aborted bodies x 4 crash points, 9 rejected calls, 3 commit failures, 4 post-commit '
-            'write patterns) are explored for all string values <= 3 chars and all version counters.',
+    'text': 'All paths of 34 transaction shapes (8 aborted bodies x 4 crash points, 9 rejected calls, 7 rejected-and-handled calls, 3 commit '
+            'failures, 4 post-commit write patterns, 3 update() patterns) are explored for all string values <= 3 chars and all version counters.',
     'note': 'Small concrete MDIB (15 descriptors, 2 context states); crash points are between API calls of a 3-step body; observers other '
             'than the provider report hook are outside.',
 }
